@@ -26,7 +26,7 @@ def run(ctx):
     from dtaidistance import dtw, dtw_ndim, ed
     rng = ctx.rng
 
-    N = 450 if ctx.quick else 9000
+    N = ctx.scale(3000, 40000)
     for it in range(N):
         long_ = rng.random() < (0.02 if ctx.quick else 0.04)
         hi = 200 if long_ else 12
@@ -69,6 +69,9 @@ def run(ctx):
                 z = d(s1, s1.copy(), **kws)
                 if z != 0:
                     bad("identity", settings=dict(dtwmon.settings_key(kws)), got=z)
+                if len(ctx.samples) < 2 and base not in (0, inf) and min(r, c) >= 3 and not long_:
+                    ctx.sample(dict(engine=eng, s1=s1.tolist(), s2=s2.tolist(), settings=dict(dtwmon.settings_key(kw)),
+                                    d=base, d_self=z, laws="identity, symmetry, window, psi, max_step, penalty, window1"))
                 if base < 0 or base != base:
                     bad("non-negativity", settings=dict(dtwmon.settings_key(kw)), got=base)
                 # symmetry with swapped psi
@@ -132,7 +135,7 @@ def run(ctx):
                 ctx.violation("exception", engine=eng, error=repr(e)[:300], s1=s1.tolist(), s2=s2.tolist(),
                               settings=dict(dtwmon.settings_key(kw)))
     # square matrices
-    M = 30 if ctx.quick else 500
+    M = ctx.scale(300, 3000)
     for _ in range(M):
         k = rng.randint(2, 6)
         nd = rng.choice([0, 0, 2])
